@@ -79,3 +79,23 @@ package credential
 //@   safety
 //@   modifies nothing
 //@   loop 1 invariant (len(vcTypes) == 0 && cap(vcTypes) == 0) || isFresh(vcTypes)
+
+// ---- C02: the validity window of a presentation is read from the presentation itself: a JWT presentation is issued at its
+// nbf (its iat only when it has no nbf) and expires at its exp; a JSON-LD presentation at the created / expires of its proof;
+// a date is handed out only when it is not the zero time ----
+//@ func (time.Time).IsZero
+//@   trusted
+//@   pure
+//@ func PresentationIssuanceDate
+//@   prop C02
+//@   assume-benign
+//@   ensures [jwt-issued-at-nbf-else-iat] result != nil && presentation.Format() == vc.JWTPresentationProofFormat ==> did(call (jwt.Token).NotBefore #1)
+//@        && (ret(call (jwt.Token).NotBefore #1).IsZero() ? did(call (jwt.Token).IssuedAt #1) && same(*result, ret(call (jwt.Token).IssuedAt #1)) : same(*result, ret(call (jwt.Token).NotBefore #1)))
+//@   ensures [ld-issued-at-proof-created] result != nil && presentation.Format() == vc.JSONLDPresentationProofFormat ==> isNilIface(ret(call ParseLDProof #1).1) && same(*result, ret(call ParseLDProof #1).0.Created)
+//@   ensures [never-the-zero-time] result != nil ==> !(*result).IsZero()
+//@ func PresentationExpirationDate
+//@   prop C02
+//@   assume-benign
+//@   ensures [jwt-expires-at-exp] result != nil && presentation.Format() == vc.JWTPresentationProofFormat ==> did(call (jwt.Token).Expiration #1) && same(*result, ret(call (jwt.Token).Expiration #1))
+//@   ensures [ld-expires-at-proof-expires] result != nil && presentation.Format() == vc.JSONLDPresentationProofFormat ==> isNilIface(ret(call ParseLDProof #1).1) && ret(call ParseLDProof #1).0.Expires != nil
+//@   ensures [never-the-zero-time] result != nil ==> !(*result).IsZero()
